@@ -81,7 +81,7 @@ func init() {
 	}
 	rpOrigins := []string{"https://example.com", "https://example.com:8443", "http://example.com", "https://login.example.com", "https://localhost",
 		"https://192.168.1.10", "https://[2001:db8::1]", "https://[2001:db8::1]:8443", "https://intranet", "https://a.b", "https://EXAMPLE.com", "https://example.com.",
-		"example.com", "", "https://", "://bad", "https://exa mple.com", "https://xn--bcher-kva.example"}
+		"example.com", "", "https://", "://bad", "https://exa mple.com", "https://xn--bcher-kva.example", "https://accounts.bank.test", "https://keys.example"}
 	run := func(c *Ctx, stream, rp, client string, expect *bool) {
 		op := M{"op": "origin.matches", "rp": hx([]byte(rp)), "client": hx([]byte(client))}
 		if expect != nil {
@@ -148,6 +148,17 @@ func init() {
 						continue
 					}
 					run(c, "origin.placements", rp, cl, &f)
+				}
+				// the RP host in another letter case, and with the two non-ASCII characters that Unicode case folding equates with ASCII letters
+				// (U+212A KELVIN SIGN ~ k, U+017F LONG S ~ s): other hosts, never acceptable
+				if !strings.ContainsAny(h, " :") && strings.ToUpper(h) != h {
+					for _, v := range []string{strings.ToUpper(h), strings.ToUpper(h[:1]) + h[1:], strings.Replace(h, "k", "\u212a", 1), strings.Replace(h, "s", "\u017f", 1),
+						strings.Replace(h, "e", "E", 1)} {
+						if v != h {
+							run(c, "origin.placements", rp, "https://"+v, &f)
+							run(c, "origin.placements", rp, "https://login."+v+":8443", &f)
+						}
+					}
 				}
 				// parent / sibling
 				if i := strings.Index(h, "."); i > 0 && !strings.Contains(h, ":") && h[len(h)-1] != '.' && !(h[0] >= '0' && h[0] <= '9') {
